@@ -336,13 +336,13 @@ def any_leaf(draw, wild=True, nan=True):
 
 @st.composite
 def any_expr(draw, depth=3, nodes=ALL_COMPOSITE, containers=True, wild=True,
-             deprecated_forms=False, min_arity=0):
+             deprecated_forms=False, min_arity=0, nan=True):
     """A spec over every node class; field values chosen by field kind."""
     d = draw
 
     def rec(depth):
         if depth <= 0 or d(st.integers(0, 3 + depth)) == 0:
-            return d(any_leaf(wild=wild))
+            return d(any_leaf(wild=wild, nan=nan))
         n = d(st.sampled_from(nodes))
         if n == "Slice":
             ar = d(st.integers(max(0, min_arity - 1), 3))
